@@ -89,7 +89,10 @@ def reformat_file(
         raise ValueError("Cannot use `inplace` with stdin")
 
     if read_stdin:
-        text = sys.stdin.read()
+        # `Path.read_text()` below reads with universal newlines, but `sys.stdin` does not
+        # translate `\r\n` or `\r` on POSIX: do the same here, so that the same bytes are
+        # formatted the same way whether they come from a file or from a pipe.
+        text = sys.stdin.read().replace("\r\n", "\n").replace("\r", "\n")
     else:
         text = Path(path).read_text()
 
